@@ -47,7 +47,10 @@ def gen_history(rng, nops, keys, mix):
                 v = bytes(rng.choice(b'abcXYZ019 ') for _ in range(rng.choice([0, 1, 3, 8])))
                 ops.append('sput %s %s' % (hexs(skey) or '-', hexs(v) or '-'))
             else:
-                ops.append('%s %s' % ('sget' if k == 'get' else 'srem', hexs(skey) or '-'))
+                if k == 'get' and rng.random() < 0.5:     # getstr() (into the table or a copy) in front of the get
+                    ops.append('sgets %s %d' % (hexs(skey) or '-', rng.randrange(2)))
+                else:
+                    ops.append('%s %s' % ('sget' if k == 'get' else 'srem', hexs(skey) or '-'))
         elif k == 'put' and rng.random() < 0.07:     # value (and key) handed in through the table's own pointers (getobj newmem=false)
             ops.append('putself %s %d:%d:%d' % (hexs(key), rng.choice([0, 0, 1, 2]), rng.choice([-1, -1, 1, 2, 3]), rng.randrange(2)))
         elif k == 'put':
@@ -94,7 +97,7 @@ def canon_near(obs):
 def monitor(ctx, opline, impl, spec, focus):
     """Property monitor: implementation observation vs specification observation. Returns a signature dict or None."""
     kind = opline.split()[0]
-    kind = {'sput': 'put', 'sget': 'get', 'srem': 'remove'}.get(kind, kind)
+    kind = {'sput': 'put', 'sget': 'get', 'sgets': 'get', 'srem': 'remove'}.get(kind, kind)
     for w in ('CRASH', 'TIMEOUT'):          # a call that died after printing part of its line
         if impl.endswith(w):
             impl = w
